@@ -18,11 +18,12 @@
 (* (pseudo-random but reproducible); mode "onegap" puts one chosen layout  *)
 (* at one chosen gap (exhaustive: every gap x every layout).               *)
 (***************************************************************************)
-EXTENDS Lex, FiniteSets, Json, IOUtils
+EXTENDS Lex, Static, Json, IOUtils, SequencesExt
 
 Trees == ndJsonDeserialize(IOEnv.TREES)
 CONSTANTS Seeds,      \* set of seeds for mode "seeded"
-          OneGap      \* TRUE: mode "onegap"
+          OneGap,     \* TRUE: mode "onegap"
+          WithStatic  \* TRUE: also print Static!Valid and the expected name diagnostics
 
 \* ---- token/node algebra -------------------------------------------------
 Empty == [toks |-> <<>>, nodes |-> <<>>]
@@ -176,6 +177,10 @@ C15_Nesting == Done => \A m, n \in 1..Len(nodes) :
 Out == [id |-> Trees[ti].id, text |-> text \o "\n", mode |-> mode,
         nodes |-> [n \in 1..Len(nodes) |->
                    <<nodes[n].kind, spans[nodes[n].f].s.ln, spans[nodes[n].f].s.ch, spans[nodes[n].l].e.ln, spans[nodes[n].l].e.ch, nodes[n].name>>],
-        flat |-> FProg(Trees[ti])]
+        flat |-> FProg(Trees[ti]),
+        valid |-> WithStatic /\ Valid(Trees[ti]),
+        names |-> IF WithStatic THEN SetToSeq({<<x[1], spans[nodes[x[2]].f].s.ln, spans[nodes[x[2]].f].s.ch, spans[nodes[x[2]].l].e.ln, spans[nodes[x[2]].l].e.ch, nodes[x[2]].name>>
+                                              : x \in NameDiagSet(nodes)})
+                  ELSE <<>>]
 EmitInv == Done => PrintT("GEN " \o ToJson(Out))
 =============================================================================
